@@ -10,7 +10,7 @@ SRC=/tmp/seed-out/$ID/$M
 [ -f $SRC/patch.diff ] || { echo "no $SRC/patch.diff"; exit 2; }
 W=/tmp/eval-$ID-$M
 git -C /repo worktree remove --force $W >/dev/null 2>&1; rm -rf $W
-git -C /repo worktree add --detach $W HEAD >/dev/null 2>&1 || { echo "worktree failed"; exit 2; }
+git -C /repo worktree add --detach $W ${SEED_BASE:-HEAD} >/dev/null 2>&1 || { echo "worktree failed"; exit 2; }
 OUT=/verif/seeded/$ID-$M
 mkdir -p $OUT
 cp $SRC/patch.diff $OUT/
